@@ -654,6 +654,16 @@ func (t *Miner) batchConfirmBlock(ctx xctx.XContext, blkIds [][]byte) error {
 				"blockId", utils.F(blkIds[index]))
 			return fmt.Errorf("the verification of block failed from ledger.")
 		}
+		// the height field of a received block is covered by neither the block id nor the
+		// signature, yet the consensus picks the validator set (tdpos, xpoa) or the target (pow)
+		// by it, and ConfirmBlock silently overwrites it with the parent's height + 1 afterwards:
+		// a block must be judged at the height it will be stored at
+		preBlock, err := t.ctx.Ledger.QueryBlockHeader(block.PreHash)
+		if err != nil || block.Height != preBlock.Height+1 {
+			ctx.GetLog().Warn("block height is not its parent's height plus one",
+				"blockId", utils.F(blkIds[index]), "height", block.Height, "err", err)
+			return errors.New("block height does not follow its parent's")
+		}
 		blockAgent := state.NewBlockAgent(block)
 		isMatch, err := t.ctx.Consensus.CheckMinerMatch(ctx, blockAgent)
 		if !isMatch {
